@@ -5,6 +5,7 @@ NOTES = ("Solver-based checking of the real code. Engine A: Kani 0.68/CBMC 6.11 
 	"listed known findings; 1 VIOLATION (reproduced counterexample); 2 inconclusive (timeout, memory, vacuous cover, overlay mismatch).")
 ENGINES = [
 	{"name": "mir-smt", "path": "/verif/lib/engine_b.py", "serves_properties": ["C13", "C06", "C02", "C09"], "kind_free_text": "nightly MIR dump -> call skeleton -> SMT-LIB2 interleaving model, z3/cvc5"},
+	{"name": "mir-symex", "path": "/verif/lib/engine_c08.py", "serves_properties": ["C08"], "kind_free_text": "nightly MIR dump -> bounded symbolic execution of a coroutine body (path conditions over symbolic source answers) -> SMT-LIB2, z3/cvc5"},
 	{"name": "kani-overlay", "path": "/verif/lib/vlib.py", "serves_properties": [], "kind_free_text": "Kani/CBMC bounded model checking of the repository's functions, harnesses in /verif/harness overlaid on a scratch copy"},
 ]
 BMC = "bounded model checking"
@@ -111,6 +112,17 @@ NOT_APPLICABLE = {
 	"C12": "interrupted writes: needs whole-function runs of the async writers followed by readers on a buffer that depends on a symbolic crash point, and rests on gzip/brotli rejecting truncated streams (loops over input inside the codecs) - out of reach of CBMC (DESIGN.md section 5)",
 	"C14": "completion orders of tokio::spawn + buffer_unordered: Kani has no threads or tokio runtime; an SMT model of buffer_unordered would verify the model, not the repository (DESIGN.md section 5)",
 	"C18": "parse_vpl is a recursive nom combinator parser over heap strings: no CBMC verdict on 4 symbolic bytes in 25 min / 8 GB; the shortest interesting texts need 5-8 bytes (DESIGN.md section 5)",
+}
+CHECKS["C08"] = {
+	"text": "Lookup path of the overlay: the coroutine body of <from_overlayed::Operation as OperationTrait>::get_tile_data is taken from the nightly MIR of the current tree and executed symbolically with the number of sources n <= N and, per source, "
+		"'this source has a tile at the requested coordinate' as symbolic variables (slice iterator, boxed future, Poll, `?`, Option given their documented semantics). z3 (thorough: also cvc5) decides for every n and every has-vector: "
+		"the extracted paths are exhaustive, sources are asked in list order at the requested coordinate, and the result is the tile of the FIRST source that has one - recompressed from that source's compression to the overlay's - or None if none has. "
+		"No test varies which sources have a tile; a SAT model is replayed on real overlay pipelines (mock sources that sign their tiles, narrowed by real filters, 7 source orders, levels 0-4), where the stream is compared as well.",
+	"note": "Lookup path only, N = 2,3 (quick) / up to 8 (thorough). The overlay's get_tile_stream (nested loops over a tile buffer, closures, futures::stream) is beyond this executor and beyond CBMC (every Kani harness that polls the operation ran out of memory, DESIGN 0.2 item 3) and is outside the claim; "
+		"so are error paths, Operation::build (source order, coverage union, compression choice) and recompress itself (C04). Any call or branch the executor has no model for makes the result inconclusive (exit 2), never a pass.",
+	"technique": "bounded symbolic execution of the compiler's MIR (nightly -Zunpretty=mir; path conditions over symbolic source answers) -> SMT-LIB2, decided by z3 / cvc5",
+	"engine": "mir-symex",
+	"design_ref": "DESIGN.md section 0.4c",
 }
 NOT_APPLICABLE["C08"] = ("from_overlayed is a Vec<Box<dyn OperationTrait>> of async_trait operations: every harness that polls Operation::get_tile_data / get_tile_stream "
 	"(2 echo sources, concrete level, codecs stubbed, futures leaked) ran out of memory (5-38 GB) or time without a verdict - CBMC unwinds the dynamic dispatch recursively together with anyhow's drop glue "
